@@ -95,7 +95,7 @@ def main(tier, seed):
         'durability levels are NOT checked: salsa invalidates by the durability an input had before the write, so a durability is a performance hint, not a correctness condition',
         'NOT solver-decided: that derived answers are a function of the inputs (salsa memoisation, interning by (file, index), LRU of parse results). Exercised by the native layer only: every edit history of %s changes '
         'and %d z3-chosen histories of %d changes from 4 start states of a two-package template (text variants that shift positional ids, change exported names and types, empty and broken files, an optional module, '
-        'the dependency edge, a module moved between src/ and test/), three query schedules each (after every change / only at the end / start and end with the layout re-sent), '
+        'the dependency edge, a module moved between src/ and test/), four schedules each (queries after every change / only at the end / start and end with the layout re-sent / every changed text queued twice in its Change), '
         'compared answer by answer (go-to-definition, references, highlight, hover, completion, prepare-rename at every identifier; diagnostics and semantic highlighting per file) with a fresh host and a fresh host asked in reverse order'
         % (' and '.join(str(x) for x in B['full']), B['sampled'][1] * 4, B['sampled'][0]),
         'the order of a references list is not compared (it is a set in the property)',
